@@ -144,7 +144,7 @@ pub fn for_property(prop: &str, tier: Tier) -> Vec<(SysCfg, RunOpts)> {
     let q = tier == Tier::Quick;
     let all: Vec<K> = ALL_KINDS.to_vec();
     let main_kinds: Vec<K> = all.iter().copied().filter(|k| *k != K::IterNonFused).collect();
-    let l04: Vec<usize> = (0..=4).collect();
+    let l04: Vec<usize> = if q { (0..=4).collect() } else { (0..=5).collect() };
     let l03: Vec<usize> = (0..=3).collect();
     let l13: Vec<usize> = (1..=3).collect();
     let d = [Final::Drop];
@@ -199,8 +199,10 @@ pub fn for_property(prop: &str, tier: Tier) -> Vec<(SysCfg, RunOpts)> {
         }
         "C05" => {
             let m = cat(&after_end(), &menu(&["DN", "DC3", "DB2", "N,N", "C2"]));
-            s.pairs(&all, if q { &l03 } else { &l04 }, &after_end(), &m, &d, &complete2());
-            s.triples(&all, &[1, 2], &menu(&["DN,N", "DB2,C2,L", "DC2,N", "N"]), &d, &bounded(b3));
+            // (the inexact-hint and copied wrappers run the same waiting protocol: thorough tier only)
+            let k5: Vec<K> = if q { all.iter().copied().filter(|k| !matches!(k, K::IterInexact | K::CopiedIter | K::ClonedVecRef)).collect() } else { all.clone() };
+            s.pairs(&k5, if q { &l03 } else { &l04 }, &after_end(), &m, &d, &complete2());
+            s.triples(&k5, &[1, 2], &menu(&["DN,N", "DB2,C2,L", "DC2,N", "N"]), &d, &bounded(b3));
         }
         "C06" => {
             let m = cat(&skips(), &cat(&stops(), &menu(&["DN", "DC2", "DB2", "L,H", "DW"])));
@@ -250,10 +252,10 @@ pub fn for_property(prop: &str, tier: Tier) -> Vec<(SysCfg, RunOpts)> {
                 for &len in &[1usize, 3] {
                     for a in &fm {
                         for b in &fm {
-                            for c in &menu(&["N,N", "C2", "DB2"]) {
+                            for c in &(if q { menu(&["N,N", "DB2"]) } else { menu(&["N,N", "C2", "DB2"]) }) {
                                 let plans = vec![a.clone(), b.clone(), c.clone()];
                                 // freeze thread 0 after k operations, for every k up to a generous count
-                                for k in 0..=6u32 {
+                                for k in (0..=6u32).filter(|k| !q || *k != 4 && *k != 6) {
                                     let o = RunOpts { freeze: Some((0, k)), expect_hang: kind.wrapper(), bound: if kind.wrapper() { Some(1) } else { None }, ..RunOpts::default() };
                                     if kind.wrapper() && !(len == 3 && k <= 3) {
                                         continue;
